@@ -51,10 +51,14 @@ def run(ctx):
     rep = t.tagged("R")
     if len(rep) != 1 or rep[0]["n"] != len(events):
         raise vlib.ToolError("trace not consumed: %s" % rep)
+    last, pre_of = {}, []
+    for ev in events:       # two archives may be interleaved (field "obj"): pre-state = last logged state of the same object
+        pre_of.append(last.get(ev.get("obj", 0)))
+        last[ev.get("obj", 0)] = ev["post"]
     for i in rep[0]["bad"]:
         ev = events[i - 1]
         ctx.violation({"dir": "impl->spec", "op": ev["op"], "res": ev["res"], "ev": {k: ev[k] for k in ("op", "k", "m", "t")}},
-                      {"index": i, "pre": events[i - 2]["post"] if i >= 2 else None, "event": ev})
+                      {"index": i, "pre": pre_of[i - 1], "event": ev})
     ctx.traces += len(events)
     ctx.evaluations += len(events)
     ctx.nontrivial += sum(1 for e in events if e["op"] in ("set", "delete", "reparse"))
